@@ -519,6 +519,29 @@ Proof.
   induction (ops c) as [|y r IH]; cbn; [discriminate|]. destruct (o_id y =? id); auto.
 Qed.
 
+Lemma frame_influence_one c id : Frame c (influence_one c id).
+Proof.
+  unfold influence_one. destruct (get_op c id) as [o|] eqn:Ho; [|apply Frame_refl].
+  pose proof (rel_check_timeout o) as R1. destruct (check_timeout o) as [o1 t]. cbn [fst] in R1.
+  apply frame_op_update with (id := id) (o := o); [exact Ho|].
+  destruct t; [exact R1|]. eapply rel_trans; [exact R1|apply rel_check_success].
+Qed.
+
+Lemma frame_influence c : Frame c (influence c).
+Proof.
+  unfold influence. generalize (map snd (running c)) as ids. intros ids. revert c.
+  induction ids as [|id r IH]; intros c; cbn [fold_left]; [apply Frame_refl|].
+  eapply Frame_trans; [apply frame_influence_one|apply IH].
+Qed.
+
+Lemma frame_poll_gone c rid : Frame c (poll_gone c rid).
+Proof.
+  unfold poll_gone. destruct (alist_get (cache c) rid); [apply Frame_refl|].
+  destruct (alist_get (running c) rid) as [id|]; [|apply Frame_refl].
+  destruct (get_op c id) as [o|]; [|apply Frame_refl].
+  eapply Frame_trans; [apply frame_remove_locked|]. eapply Frame_trans; [apply frame_cancel|apply frame_bury].
+Qed.
+
 Lemma ctl_step_ok c e : step_ok c (fst (ctl_step c e)).
 Proof.
   destruct e; cbn [ctl_step].
@@ -551,6 +574,9 @@ Proof.
   - cbn [fst]. apply step_ok_same; reflexivity.
   - destruct (get_op c id) as [o|] eqn:Ho; cbn [fst]; [|apply step_ok_same; reflexivity].
     apply step_ok_frame. apply frame_op_update with (id := id) (o := o); [exact Ho|apply rel_poke_op].
+  - cbn [fst]. apply step_ok_frame, frame_influence.
+  - cbn [fst]. apply step_ok_same; reflexivity.
+  - cbn [fst]. apply step_ok_frame, frame_poll_gone.
 Qed.
 
 (* ---------- the statements ---------- *)
@@ -611,6 +637,9 @@ Proof.
   - cbn [fst]. eapply Rec_same; [| |exact R]; reflexivity.
   - destruct (get_op c id) as [o|] eqn:Ho; cbn [fst]; [|exact R].
     apply (fr_rec _ _ (frame_op_update c id o _ Ho (rel_poke_op c o k)) R).
+  - cbn [fst]. apply (fr_rec _ _ (frame_influence c) R).
+  - cbn [fst]. eapply Rec_same; [| |exact R]; reflexivity.
+  - cbn [fst]. apply (fr_rec _ _ (frame_poll_gone c rid) R).
 Qed.
 
 Lemma records_truthful_pf maxw es : Rec (run_state ctl_step (init maxw) es).
